@@ -504,3 +504,21 @@ func init() {
 		return tuple{ps, icann}
 	}
 }
+
+// Logging helpers of the no-op packages that have an effect besides logging.
+func init() {
+	closeArg := func(k int) func(fr *frame, a []value) value {
+		return func(fr *frame, a []value) value {
+			if c, ok := a[k].(iface); ok && c.t != nil {
+				callMethod(fr.i, fr, c, "Close")
+			}
+			return nil
+		}
+	}
+	// func OnCloserError(closer io.Closer, l Level): closes and logs the error
+	externals["github.com/AdguardTeam/golibs/log.OnCloserError"] = closeArg(0)
+	// func CloseAndLog(ctx, l *slog.Logger, closer io.Closer, lvl slog.Level)
+	externals["github.com/AdguardTeam/golibs/logutil/slogutil.CloseAndLog"] = closeArg(2)
+	// func ContextWithLogger(parent context.Context, l *slog.Logger) context.Context
+	externals["github.com/AdguardTeam/golibs/logutil/slogutil.ContextWithLogger"] = func(fr *frame, a []value) value { return a[0] }
+}
